@@ -314,10 +314,11 @@ def plain_tables(classes, mids):
     fname = f"<vtgen:c17:{next(_counter)}>"
     src = ""
     out = {}
-    failed = None
+    broken = set()  # classes whose statement raised, and their descendants (the others are still defined)
     for name, bases, kind, defs in classes:
-        if failed:
-            out[name] = failed
+        if any(b in broken for b in bases):
+            broken.add(name)
+            out[name] = ("error", "base-class-missing")
             continue
         chunk = class_source(name, bases, kind, defs, mids[name])
         lineno = src.count("\n") + 1
@@ -326,7 +327,8 @@ def plain_tables(classes, mids):
         try:
             exec(compile("\n" * (lineno - 1) + chunk, fname, "exec"), glb, glb)
         except Exception as e:  # noqa
-            failed = out[name] = ("error", type(e).__name__)
+            broken.add(name)
+            out[name] = ("error", type(e).__name__)
             continue
         inst = glb[name]()
         rows = []
